@@ -232,3 +232,66 @@ Lemma units_roundtrip_orig_refuted : import_units xcfg_orig (export_units Pico) 
 Proof. vm_compute. reflexivity. Qed.
 Lemma units_roundtrip_orig_others : forall u, u <> Pico -> import_units xcfg_orig (export_units u) = Ok u.
 Proof. destruct u; intros H; try (vm_compute; reflexivity). congruence. Qed.
+
+(** * the executable oracle [raw_equivb] implies [raw_equiv] *)
+Lemma point_eqb_eq a b : point_eqb a b = true -> a = b.
+Proof.
+  unfold point_eqb. intros H. apply andb_prop in H as [H1 H2]. apply Z.eqb_eq in H1, H2.
+  destruct a, b. cbn in *. subst. reflexivity.
+Qed.
+Lemma points_eqb_eq a : forall b, points_eqb a b = true -> a = b.
+Proof.
+  induction a as [|x r IH]; intros [|y t] H; cbn [points_eqb] in H; try discriminate; [reflexivity|].
+  apply andb_prop in H as [H1 H2]. apply point_eqb_eq in H1. apply IH in H2. subst. reflexivity.
+Qed.
+Lemma shape_eqb_eq a b : shape_eqb a b = true -> a = b.
+Proof.
+  destruct a, b; cbn [shape_eqb]; intros H; try discriminate.
+  - apply andb_prop in H as [H1 H2]. apply point_eqb_eq in H1, H2. subst. reflexivity.
+  - apply points_eqb_eq in H. subst. reflexivity.
+  - apply andb_prop in H as [H1 H2]. apply points_eqb_eq in H1. apply Z.eqb_eq in H2. subst. reflexivity.
+Qed.
+Lemma ostring_eqb_eq a b : ostring_eqb a b = true -> a = b.
+Proof. destruct a, b; cbn; intros H; try discriminate; [apply String.eqb_eq in H; subst|]; reflexivity. Qed.
+Lemma oz_eqb_eq a b : oz_eqb a b = true -> a = b.
+Proof. destruct a, b; cbn; intros H; try discriminate; [apply Z.eqb_eq in H; subst|]; reflexivity. Qed.
+Lemma vinst_eqb_eq a b : vinst_eqb a b = true -> a = b.
+Proof.
+  unfold vinst_eqb. intros H. repeat (apply andb_prop in H; destruct H as [H ?]).
+  apply String.eqb_eq in H. apply point_eqb_eq in H2. apply Bool.eqb_prop in H1. apply oz_eqb_eq in H0.
+  destruct a, b. cbn in *. subst. reflexivity.
+Qed.
+Lemma velem_equivb_sound v v' : velem_equivb v v' = true -> velem_equiv v v'.
+Proof.
+  unfold velem_equivb, velem_equiv. intros H. repeat (apply andb_prop in H; destruct H as [H ?]).
+  apply Z.eqb_eq in H, H2. apply ostring_eqb_eq in H0. unfold shape_equivb in H1. apply shape_eqb_eq in H1.
+  repeat split; assumption.
+Qed.
+Lemma forall2b_eq {A} (f : A -> A -> bool) : (forall a b, f a b = true -> a = b) -> forall l l', forall2b f l l' = true -> l = l'.
+Proof.
+  intros Hf. induction l as [|a r IH]; intros [|b t] H; cbn [forall2b] in H; try discriminate; [reflexivity|].
+  apply andb_prop in H as [H1 H2]. apply Hf in H1. apply IH in H2. subst. reflexivity.
+Qed.
+Lemma forall2b_Forall2 {A B} (f : A -> B -> bool) (R : A -> B -> Prop) : (forall a b, f a b = true -> R a b) ->
+  forall l l', forall2b f l l' = true -> Forall2 R l l'.
+Proof.
+  intros Hf. induction l as [|a r IH]; intros [|b t] H; cbn [forall2b] in H; try discriminate; [constructor|].
+  apply andb_prop in H as [H1 H2]. constructor; [apply Hf; exact H1|apply IH; exact H2].
+Qed.
+Lemma units_eqb_eq a b : units_eqb a b = true -> a = b.
+Proof. destruct a, b; cbn; intros H; try discriminate; reflexivity. Qed.
+
+Theorem raw_equivb_sound L L' : raw_equivb L L' = true -> raw_equiv L L'.
+Proof.
+  unfold raw_equivb, raw_equiv. intros H. apply andb_prop in H as [H H3]. apply andb_prop in H as [H1 H2].
+  split; [apply units_eqb_eq; exact H1|]. split; [apply Nat.eqb_eq; exact H2|].
+  apply Forall_forall. intros c Hc. rewrite forallb_forall in H3. specialize (H3 c Hc).
+  unfold cell_equivb in H3. apply existsb_exists in H3 as [c' [Hc' H]].
+  apply andb_prop in H as [Hn H]. apply String.eqb_eq in Hn.
+  destruct (c_layout c') as [l'|] eqn:El; [|discriminate].
+  destruct (cell_view (lib_layers L) (lib_cells L) c) as [[iv ev]|] eqn:Ev; [|discriminate].
+  destruct (cell_view (lib_layers L') (lib_cells L') c') as [[iv' ev']|] eqn:Ev'; [|discriminate].
+  apply andb_prop in H as [Hi He]. apply (forall2b_eq _ vinst_eqb_eq) in Hi. subst iv'.
+  exists c', l', iv, ev, ev'. repeat split; try assumption.
+  exact (forall2b_Forall2 _ _ velem_equivb_sound _ _ He).
+Qed.
